@@ -7,7 +7,9 @@ PoolQuick == { N(1), N(2), EmptyT, Mk1("a", N(1)),
                Chr(0, 97), Chr(1, 98), Chr(3, 99),
                Itm(0, N(1)), Itm(1, N(2)),
                Ent(N(1), N(2)), Byt(0, 1), S({N(1)}),
-               Chr(0, 98), Itm(0, N(2)) }
+               Chr(0, 98), Itm(0, N(2)),
+               Ent(N(1), N(3)),                         \* a second value for the key 1: multi-valued dictionaries
+               T([at |-> H(0), ch |-> N(97)]) }          \* (@: 0.5, @char: 97): shaped like a char tuple, not one
 PoolThorough == PoolQuick \cup
              { Mk2("a", N(1), "b", N(2)), Mk1("b", N(1)), Mk1("a", N(2)),
                Chr(2, 100), Itm(2, S({})), Itm(3, N(1)), Byt(1, 2), Byt(2, 1),
